@@ -62,7 +62,8 @@ struct SelfTestCtl {
         }
 };
 SelfTestCtl g_st;
-enum { EV_AES_ENTER = 1, EV_AES_EXIT, EV_SHA_ENTER, EV_SHA_EXIT, EV_KERNEL, EV_CALL_BEGIN, EV_CALL_RETURN, EV_PUBLISH_SEEN };
+enum { EV_AES_ENTER = 1, EV_AES_EXIT, EV_SHA_ENTER, EV_SHA_EXIT, EV_KERNEL, EV_CALL_BEGIN, EV_CALL_RETURN, EV_PUBLISH_SEEN, EV_STALL };
+extern "C" uint64_t g_sched_skip, g_sched_skip_site;
 } // namespace
 
 extern "C" int __wrap__aes_self_tests(void)
@@ -304,9 +305,9 @@ struct FipsRaceSim : Sim {
                          "self-test bodies: injected verdict with yields (19 of 20 runs)", "kernel entry recording stubs behind the dispatch pointers" };
         }
 
-        enum { OPK_STEP = 1, OPK_CHANGE = 2 };
+        enum { OPK_STEP = 1, OPK_CHANGE = 2, OPK_STALL = 3 };
 
-        Plan generate(uint64_t seed, const std::string &, bool thorough, uint64_t) override
+        Plan generate(uint64_t seed, const std::string &, bool thorough, uint64_t run_index) override
         {
                 Rng g(seed, "plan");
                 Plan p;
@@ -337,6 +338,27 @@ struct FipsRaceSim : Sim {
                         Op o;
                         o.kind = OPK_CHANGE;
                         p.ops.insert(p.ops.begin() + g.below(p.ops.size() + 1), o);
+                }
+                // fault "stalled runner": a task that is spinning on the RUNNING status polls 2^k times in a row while nobody else makes
+                // a step (the thread that runs the self-tests is descheduled, swapped out, or just slow). One run in 8 has one or two
+                // short stalls (2^8 .. 2^20 polls); a few runs per batch have a stall of more than 2^24 polls (about a second each).
+                bool big = (run_index % 16384) == 5;
+                if (big || g.chance(1, 8)) {
+                        int ns = big ? 1 : 1 + (int) g.below(2);
+                        for (int k = 0; k < ns; k++) {
+                                Op o;
+                                o.kind = OPK_STALL;
+                                o.a = (int64_t) g.below(1 << 16);
+                                o.b = big ? (int64_t) ((1u << 24) + (1u << 16) + g.below(1 << 16)) : (int64_t) (1ull << (8 + 4 * g.below(4))) + (int64_t) g.below(7);
+                                // early in the schedule, where waiters exist
+                                p.ops.insert(p.ops.begin() + g.below(std::min<size_t>(p.ops.size(), 60) + 1), o);
+                        }
+                        if (big) {
+                                p.cfg["tasks"] = std::max<int64_t>(2, p.cfg["tasks"]);
+                                p.cfg["policy"] = 0;
+                                p.cfg["impl"] = 0;
+                                p.cfg["real"] = 0;
+                        }
                 }
                 return p;
         }
@@ -476,6 +498,27 @@ struct FipsRaceSim : Sim {
                 int burst_task = -1, burst_left = 0;
                 int rr = 0;
                 bool cap_hit = false;
+                std::vector<Op> deferred; // stalled-runner faults waiting for a spinning waiter
+                auto try_stall = [&](const Op &o, const std::vector<int> &run) -> bool {
+                        // a spinning waiter (asm implementation) polls o.b times in a row while nobody else makes a step
+                        std::vector<int> sp;
+                        for (int t : run)
+                                if (!generic && !sched.task(t).done && sched.task(t).last_point == 3)
+                                        sp.push_back(t);
+                        if (sp.empty() || !site_spin)
+                                return false;
+                        int t = sp[o.a % sp.size()];
+                        g_sched_skip_site = site_spin;
+                        g_sched_skip = (uint64_t) o.b;
+                        r.cov.hit(strfmt("fault_runner_stalled_waiter_polls_2^%d", 63 - __builtin_clzll((unsigned long long) std::max<int64_t>(1, o.b))));
+                        log(EV_STALL, t, o.b);
+                        last_was_spin = false;
+                        sched.step(t);
+                        g_sched_skip = 0;
+                        steps++;
+                        r.steps++;
+                        return true;
+                };
                 while (!sched.all_done()) {
                         if (steps >= CAP) {
                                 cap_hit = true;
@@ -491,9 +534,18 @@ struct FipsRaceSim : Sim {
                                         if (!sched.task(i).done)
                                                 run.push_back(i);
                         }
+                        if (!deferred.empty() && try_stall(deferred.back(), run)) {
+                                deferred.pop_back();
+                                continue;
+                        }
                         int pick;
                         if (opi < p.ops.size()) {
                                 const Op &o = p.ops[opi++];
+                                if (o.kind == OPK_STALL) {
+                                        if (!try_stall(o, run))
+                                                deferred.push_back(o); // nobody is spinning yet: fires as soon as somebody is
+                                        continue;
+                                }
                                 if (o.kind == OPK_CHANGE) {
                                         if (policy == 1) {
                                                 int best = run[0];
